@@ -63,11 +63,11 @@ Definition ex_cycle : document :=
 
 (** ** the defects repaired in the repository, replayed on the model with the repair switched off *)
 Definition before_fix_8 : quirks :=
-  {| q_descend := false; q_revisit_ok := true; q_nil_arg := true; q_leaf_parent := true; q_unwrap_obj := true; q_depth := true; q_noninput := true |}.
+  {| q_descend := false; q_revisit_ok := true; q_nil_arg := true; q_leaf_parent := true; q_unwrap_obj := true; q_depth := true; q_noninput := true; q_impl_features := true |}.
 Definition before_fix_9 : quirks :=
-  {| q_descend := true; q_revisit_ok := false; q_nil_arg := true; q_leaf_parent := true; q_unwrap_obj := true; q_depth := true; q_noninput := true |}.
+  {| q_descend := true; q_revisit_ok := false; q_nil_arg := true; q_leaf_parent := true; q_unwrap_obj := true; q_depth := true; q_noninput := true; q_impl_features := true |}.
 Definition before_fix_4 : quirks :=
-  {| q_descend := true; q_revisit_ok := true; q_nil_arg := false; q_leaf_parent := true; q_unwrap_obj := true; q_depth := true; q_noninput := true |}.
+  {| q_descend := true; q_revisit_ok := true; q_nil_arg := false; q_leaf_parent := true; q_unwrap_obj := true; q_depth := true; q_noninput := true; q_impl_features := true |}.
 
 Definition dir_include (c : N) : directive :=
   {| d_name := n "include"; d_npos := p (c + 1); d_at := p c; d_args := [arg "if" (c + 9) (VBool no_vann true (p (c + 13)))] |}.
@@ -109,3 +109,31 @@ Proof. exists before_fix_9, ex_schema, [], ex_spread_twice. split; [reflexivity 
 Lemma panic_before_fix_4 :
   exists q S F D, q_nil_arg q = false /\ validate_model q id_order S F D = Panic PNilArgument.
 Proof. exists before_fix_4, ex_schema, [], ex_nil_argument. split; [reflexivity |]. apply ex_before_fix_4. Qed.
+
+(** DESIGN 6 row 30 (validator half): interfaces I and J whose only common implementation G needs a
+    feature the request lacks;  { i { ... on J { y } } }  *)
+Definition before_fix_30 : quirks :=
+  {| q_descend := true; q_revisit_ok := true; q_nil_arg := true; q_leaf_parent := true; q_unwrap_obj := true; q_depth := true; q_noninput := true; q_impl_features := false |}.
+Definition ex_gated_schema : schema :=
+  {| s_types :=
+       [ (n "Int", ty_ (TScalar SInt)); (n "String", ty_ (TScalar SString));
+         (n "I", ty_ (TInterface [(n "x", fd (StNamed (n "Int")) [])]));
+         (n "J", ty_ (TInterface [(n "y", fd (StNamed (n "Int")) [])]));
+         (n "G", {| t_req := [n "fa"]; t_body := TObject [(n "x", fd (StNamed (n "Int")) []); (n "y", fd (StNamed (n "Int")) [])] [n "I"; n "J"] |});
+         (n "A", ty_ (TObject [(n "x", fd (StNamed (n "Int")) [])] [n "I"]));
+         (n "B", ty_ (TObject [(n "y", fd (StNamed (n "Int")) [])] [n "J"]));
+         (n "Query", ty_ (TObject [(n "i", fd (StNamed (n "I")) [])] [])) ];
+     s_query := n "Query"; s_mutation := None; s_subscription := None; s_directives := []; s_meta := [];
+     s_impls := [(n "I", [n "G"; n "A"]); (n "J", [n "G"; n "B"])] |}.
+Definition ex_gated_spread : document :=
+  [ DOp None None [] []
+        (SelSet None [fld "i" 3 [] [] (Some (SelSet None [SInline (Some (n "J", p 14)) [] (SelSet None [fld "y" 18 [] [] None] (p 16)) (p 7)] (p 5)))] (p 1)) ].
+Lemma ex_before_fix_30 :
+  valid_5_5_2_3 ex_gated_schema [] ex_gated_spread = false /\
+  validate_model before_fix_30 id_order ex_gated_schema [] ex_gated_spread = Done [] /\
+  validate_model repaired id_order ex_gated_schema [] ex_gated_spread = Done [err ESpreadImpossible (p 14)] /\
+  validate_model repaired id_order ex_gated_schema [n "fa"] ex_gated_spread = Done [].
+Proof. vm_compute. repeat split. Qed.
+Lemma accepted_violation_before_fix_30 :
+  exists q S F D, q_impl_features q = false /\ valid_5_5_2_3 S F D = false /\ validate_model q id_order S F D = Done [].
+Proof. exists before_fix_30, ex_gated_schema, [], ex_gated_spread. split; [reflexivity |]. destruct ex_before_fix_30 as [H1 [H2 _]]. auto. Qed.
